@@ -1,6 +1,7 @@
 package props
 
 import (
+	"fmt"
 	"strings"
 
 	"gcacheck/internal/an"
@@ -18,7 +19,7 @@ func init() {
 			"a migration order is stored only after the validator returned nil, whose summary holds Verify(registered GCA key, order.SigningBytes(), order.Signature) and which rejects any inner server not signed by the order's new GCA. " +
 			"CLIENT SIDE (with C10 and C11): the GCA key, device id and server map are assigned only values returned by the sync parser, under its err == nil result, and only in the branch where the new GCA is non-zero and differs from the current one; " +
 			"each of the three assignments is preceded, on every path, by a successful write of the same value to the file its loader reads (gcaPubKey.dat, shortID.dat little-endian, gcaServers.dat via the map encoder), so a restart resumes with what was adopted. " +
-			"COVER the signing bytes of AuthorizedServer and EquipmentMigration cover every field (elements of NewServers through their own Serialize) and cut exactly the trailing signature; the parser-acceptance rules of C10 and the MERGE/PERSIST rules of C11 for the client server map are re-run here because this property states them too. what the client persists it also adopts in memory before releasing the lock; no field of a listed server entry is changed in place. NOT decided: sequences of posts as such; that the three client files are updated atomically with respect to a crash (the code documents that risk itself).",
+			"COVER the signing bytes of AuthorizedServer and EquipmentMigration cover every field (elements of NewServers through their own Serialize) and cut exactly the trailing signature; the parser-acceptance rules of C10 and the MERGE/PERSIST rules of C11 for the client server map are re-run here because this property states them too. what the client persists it also adopts in memory before releasing the lock; no field of a listed server entry is changed in place. Nothing in the client deletes from its server map. NOT decided: sequences of posts as such; that the three client files are updated atomically with respect to a crash (the code documents that risk itself).",
 		Assumptions: append([]string{"glow.Verify is sound (trusted)"}, baseAssumptions...),
 		Run:         runC17,
 	})
@@ -262,6 +263,7 @@ func innerServersVerified(c *an.Ctx, v *ssa.Function) {
 	p := c.P
 	fi := p.Info(v)
 	found := false
+	var seen []string
 	for _, b := range v.Blocks {
 		for _, in := range b.Instrs {
 			call, ok := in.(*ssa.Call)
@@ -287,7 +289,13 @@ func innerServersVerified(c *an.Ctx, v *ssa.Function) {
 				e = e.A[0]
 			}
 			// e must be an element of order.NewServers and st its GCAAuthorization
-			if !strings.Contains(e.Key(), "NewServers") || st.Key() != fi.FieldOfTerm(e, "GCAAuthorization").Key() {
+			// (the element by value, or through its address: as := &order.NewServers[i]; as.GCAAuthorization)
+			sameElem := st.Key() == fi.FieldOfTerm(e, "GCAAuthorization").Key()
+			if !sameElem && e.K == an.KIA && st.K == an.KLoad && len(st.A) > 0 && st.A[0].K == an.KFA && st.A[0].S == "GCAAuthorization" && len(st.A[0].A) > 0 && st.A[0].A[0].Key() == e.Key() {
+				sameElem = true
+			}
+			if !strings.Contains(e.Key(), "NewServers") || !sameElem {
+				seen = append(seen, "data "+short(e.Key())+" signature "+short(st.Key())+" expected "+short(fi.FieldOfTerm(e, "GCAAuthorization").Key()))
 				continue
 			}
 			// the false edge returns an error
@@ -297,25 +305,57 @@ func innerServersVerified(c *an.Ctx, v *ssa.Function) {
 	}
 	// and the nil return is after the loop over all NewServers
 	exhausted := false
-	for _, b := range v.Blocks {
-		if len(b.Instrs) == 0 {
+	for _, o := range fi.OutcomesByEdge() {
+		if len(o.Results) == 0 {
 			continue
 		}
-		if ret, ok := b.Instrs[len(b.Instrs)-1].(*ssa.Return); ok {
-			if k, isC := fi.Term(ret.Results[len(ret.Results)-1]).IsConst(); isC && k == "nil" {
-				for _, f := range fi.FactsAt(ret) {
-					if !f.Neg && f.T.K == an.KBin && f.T.S == "<=" && f.T.A[0].K == an.KLen && strings.Contains(f.T.A[0].Key(), "NewServers") {
-						exhausted = true
-					}
+		if k, isC := o.Results[len(o.Results)-1].IsConst(); isC && k == "nil" {
+			for _, f := range o.Facts {
+				if !f.Neg && f.T.K == an.KBin && f.T.S == "<=" && f.T.A[0].K == an.KLen && strings.Contains(f.T.A[0].Key(), "NewServers") {
+					exhausted = true
 				}
 			}
 		}
 	}
-	c.Check(found && exhausted, "AUTH", v, v.Pos(), an.KeyOf(v, "inner-servers"), "the validator accepts an order only if every server in it is signed by the order's new GCA (the loop rejects on the first bad signature and the nil return follows the exhausted loop)", "Verify(order.NewGCA, s.SigningBytes(), s.GCAAuthorization) per element")
+	c.Check(found && exhausted, "AUTH", v, v.Pos(), an.KeyOf(v, "inner-servers"), "the validator accepts an order only if every server in it is signed by the order's new GCA (the loop rejects on the first bad signature and the nil return follows the exhausted loop)", "Verify(order.NewGCA, s.SigningBytes(), s.GCAAuthorization) per element"+func() string {
+		if len(seen) > 0 && !found {
+			return "; other Verify calls: " + strings.Join(seen, "; ")
+		}
+		return ""
+	}())
+}
+
+// clientNeverForgets: the client's server map only grows (and entries only become banned): nothing deletes from it. A
+// server that is forgotten - a banned one dropped at start-up, say - is "new" when a reply lists it again and would be
+// re-added with whatever flag that (possibly older) entry carries.
+func clientNeverForgets(c *an.Ctx) {
+	p := c.P
+	n := 0
+	for _, fn := range p.FuncsIn("client") {
+		fi := p.Info(fn)
+		for _, b := range fn.Blocks {
+			for _, in := range b.Instrs {
+				call, ok := in.(*ssa.Call)
+				if !ok {
+					continue
+				}
+				bi, isB := call.Call.Value.(*ssa.Builtin)
+				if !isB || bi.Name() != "delete" || len(call.Call.Args) != 2 {
+					continue
+				}
+				n++
+				cls := fi.RefClass(call.Call.Args[0])
+				f, isF := cls.FieldOf("Client")
+				c.Check(!(isF && f == "gcaServers"), "MONO", fn, call.Pos(), an.KeyOf(fn, "client-delete:"+cls.String()), "the client never deletes an entry of its server map (a forgotten banned server could come back unbanned)", "delete from "+cls.String())
+			}
+		}
+	}
+	c.Proved("MONO", nil, 0, "client-map-grows-only", "no function of package client deletes from Client.gcaServers", fmt.Sprintf("%d delete statements examined", n))
 }
 
 // clientAdoption: identity stores in the client come from the parser and are persisted first.
 func clientAdoption(c *an.Ctx) {
+	clientNeverForgets(c)
 	p := c.P
 	parser := findSyncParser(p)
 	if parser == nil {
@@ -663,6 +703,10 @@ func falseEdgeReturnsError(fi *an.FuncInfo, call *ssa.Call) bool {
 		fb := iff.Block().Succs[falseSucc]
 		if len(fb.Instrs) == 0 {
 			return false
+		}
+		// every way on from the false edge ends in an error return (directly, or err = ...; break; return err)
+		if abortsOnly(fi, iff.Block(), fb) {
+			return true
 		}
 		if ret, ok := fb.Instrs[len(fb.Instrs)-1].(*ssa.Return); ok && len(ret.Results) > 0 {
 			if k, isC := fi.Term(ret.Results[len(ret.Results)-1]).IsConst(); !isC || k != "nil" {
